@@ -731,7 +731,7 @@ def gen_transformation(rng, rule, identity):
         it["value"] = rng.choice(["x", "a*b", 5, True, None, "q\\*", 1.5])
         if rng.random() < 0.2 and isinstance(it["value"], (str, int, float)) and not isinstance(it["value"], bool):
             it["force_type"] = "str" if not isinstance(it["value"], str) else rng.choice(["str"])
-        if isinstance(it["value"], (int, float)) and not isinstance(it["value"], bool) and rng.random() < 0.2:
+        if isinstance(it["value"], int) and not isinstance(it["value"], bool) and rng.random() < 0.3:   # SigmaNumber("1.5") is rejected by the implementation
             it["value"], it["force_type"] = str(it["value"]), "num"
     elif t == "case":
         it["method"] = rng.choice(["lower", "upper", "snake_case"])
@@ -784,13 +784,27 @@ def collect_added(items, prefix, out):
             out[key] = template_subst(it["conditions"]) if it.get("template") else it["conditions"]
 
 
+def selectors_inhabited(e, names):
+    if e[0] == "sel":
+        return e[2] == "them" or any(glob_match(e[2], n) for n in names)
+    if e[0] == "not":
+        return selectors_inhabited(e[1], names)
+    if e[0] in ("and", "or"):
+        return all(selectors_inhabited(a, names) for a in e[1])
+    return True
+
+
 def gen_tr(tier, rng):
-    n = 1500 if tier == "quick" else 24000
+    n = 1000 if tier == "quick" else 20000
     out = []
     for i in range(n):
         names = rng.sample(NAMES, rng.randint(1, 3))
         dets = {nm: c_gen_detection(rng) for nm in names}
         expr = gen_expr(rng, names, rng.choice([0, 1, 1, 2, 2]))
+        for _ in range(20):      # selectors that match no detection have no meaning (C01): draw again
+            if selectors_inhabited(expr, names):
+                break
+            expr = gen_expr(rng, names, rng.choice([0, 1, 1, 2, 2]))
         rule = {"title": "t", "logsource": {"category": "c"}, "detection": dict(dets, condition=spell(expr))}
         if rng.random() < 0.3:
             rule["fields"] = rng.sample(C_FIELDS + ["other"], rng.randint(1, 3))
